@@ -2,6 +2,7 @@
 
 pub mod backend;
 pub mod common;
+pub mod corrupt;
 pub mod engine;
 pub mod gen;
 pub mod guard;
@@ -11,6 +12,7 @@ pub mod props;
 pub mod refparse;
 pub mod report;
 pub mod rng;
+pub mod synth;
 pub mod upper_table;
 
 #[global_allocator]
